@@ -577,6 +577,14 @@ fn check_pl_with(idx: u64, pl: &str, origin: &dyn Fn() -> Value, abstract_font: 
             }
         }
     }
+    // the TFM of a warning-free property list must itself have a round trip: if the crate's reader
+    // refuses it there is no canonical form at all
+    if let Ok(Conv { pl: Err(e), .. }) = tftopl(&b0) {
+        acc.eval();
+        acc.fail(idx, case(), "tfm_to_pl reads the TFM that pl_to_tfm wrote for a warning-free property list", e, "the TFM of a warning-free property list cannot be converted back: no round trip exists");
+        acc.class("FAIL TFM of a warning-free PL is unreadable");
+        return;
+    }
     check_tfm(idx, &b0, &case, acc);
 }
 
@@ -797,6 +805,26 @@ fn gen_sizes() -> Vec<(String, String)> {
             writeln!(pl, "(CHARACTER O {:o} (CHARWD R 1.{}))", i + (256 - k), i % 7).unwrap();
         }
         cases.push((format!("{k} characters, 7 widths"), pl));
+    }
+    // 255 / 256 characters with a VARCHAR each: 255 / 256 distinct extensible recipes (the index is a byte)
+    for n in [254usize, 255, 256] {
+        let mut s = String::from("(DESIGNSIZE R 10.0)\n");
+        for c in 0..256usize {
+            if c < n {
+                writeln!(s, "(CHARACTER O {c:o} (CHARWD R 1.0) (VARCHAR (TOP O {:o}) (REP O {c:o})))", (c + 1) % 256).unwrap();
+            } else {
+                writeln!(s, "(CHARACTER O {c:o} (CHARWD R 1.0))").unwrap();
+            }
+        }
+        cases.push((format!("{n} characters with {n} distinct VARCHAR recipes"), s));
+    }
+    for n in [253usize, 254] {
+        let mut s = String::from("(DESIGNSIZE R 10.0)\n(FONTDIMEN\n");
+        for i in 1..=n {
+            writeln!(s, " (PARAMETER D {i} R 0.{:03})", i).unwrap();
+        }
+        s.push_str(" )\n(CHARACTER C A (CHARWD R 1.0))\n");
+        cases.push((format!("{n} font parameters"), s));
     }
     // 255 / 256 / 257 distinct kern amounts: the kern index needs the second byte (op byte 129) from 256 on
     for n in [255usize, 256, 257, 600] {
@@ -1064,6 +1092,38 @@ fn simple_tfm_face(chars: &[(u8, u8, u8)], lk: &[[u8; 4]], exten: &[[u8; 4]], sb
     }
     for k in 0..np {
         out.extend((((k % 7 + 1) as i32) << 18).to_be_bytes()); // parameters 0.25 .. 1.75
+    }
+    out
+}
+
+/// A hand-written font with all 256 characters whose tables have exactly the given sizes (zero entry
+/// included for the four dimension tables), every entry in use: character c points at entry
+/// 1 + c mod (n-1) of the dimension tables and, if ne > 0, has the extensible recipe c mod ne.
+fn table_limit_tfm(nw: usize, nh: usize, nd: usize, ni: usize, ne: usize, np: usize) -> Vec<u8> {
+    let lf = 6 + 18 + 256 + nw + nh + nd + ni + ne + np;
+    let mut out: Vec<u8> = vec![];
+    for v in [lf, 18, 0, 255, nw, nh, nd, ni, 0, 0, ne, np] {
+        out.extend((v as u16).to_be_bytes());
+    }
+    let mut hb = vec![0u8; 72];
+    hb[0..4].copy_from_slice(&[1, 2, 3, 4]);
+    hb[4..8].copy_from_slice(&(10i32 << 20).to_be_bytes());
+    out.extend(&hb);
+    let idx = |c: usize, n: usize| -> u8 { if n <= 1 { 0 } else { (1 + c % (n - 1)) as u8 } };
+    for c in 0..256usize {
+        let (tag, rem) = if ne > 0 { (3u8, (c % ne) as u8) } else { (0, 0) };
+        out.extend([idx(c, nw).max(1), (idx(c, nh) << 4) | idx(c, nd), (idx(c, ni) << 2) | tag, rem]);
+    }
+    for n in [nw, nh, nd, ni] {
+        for i in 0..n {
+            out.extend(((i as i32) << 12).to_be_bytes()); // 0, then distinct positive values
+        }
+    }
+    for k in 0..ne {
+        out.extend([0, 0, ((k + 1) % 256) as u8, k as u8]); // distinct recipes: BOT k+1, REP k
+    }
+    for k in 0..np {
+        out.extend((((k % 200 + 1) as i32) << 12).to_be_bytes());
     }
     out
 }
@@ -1528,6 +1588,83 @@ fn main() {
             check_pl(i, &pl, &|| json!({"kind": "pl-face", "face": txt}), None, acc);
         });
     }
+    // (ix) every table at its maximum size and one below, hand-written, all entries in use
+    {
+        let base = (3usize, 2usize, 2usize, 2usize, 0usize, 2usize);
+        let mut specs: Vec<(&'static str, (usize, usize, usize, usize, usize, usize))> = vec![];
+        for (name, f) in [("nw", 0usize), ("nh", 1), ("nd", 2), ("ni", 3), ("ne", 4), ("np", 5)] {
+            let (below, max) = [(255usize, 256usize), (15, 16), (15, 16), (63, 64), (255, 256), (253, 254)][f];
+            for v in [below, max] {
+                let mut t = [base.0, base.1, base.2, base.3, base.4, base.5];
+                t[f] = v;
+                specs.push((name, (t[0], t[1], t[2], t[3], t[4], t[5])));
+            }
+        }
+        specs.push(("all", (256, 16, 16, 64, 256, 254)));
+        specs.push(("np255", (3, 2, 2, 2, 0, 255)));
+        let sp = &specs;
+        ctx.family("tfm-table-limits", "hand-written fonts with all 256 characters and one table at its maximum size or one below, every entry in use: nw 255/256, nh 15/16, nd 15/16, ni 63/64, ne 255/256, np 253/254 (255: not comparable), and all tables at their maximum together; a font the independent reader accepts but tfm_to_pl refuses is a failure (no round trip exists)", specs.len() as u64, |i, acc| {
+            let (name, (nw, nh, nd, ni, ne, np)) = sp[i as usize];
+            let b = table_limit_tfm(nw, nh, nd, ni, ne, np);
+            let before = acc.nontrivial;
+            if let (Ok(_), Ok(Conv { pl: Err(e), .. })) = (tfmraw::parse(&b), tftopl(&b)) {
+                acc.eval();
+                acc.fail(i, json!({"kind": "tfm-table-limits", "table": name, "sizes": [nw, nh, nd, ni, ne, np], "hex": hex(&b)}), "tfm_to_pl reads a font whose table sizes are legal (TFtoPL §20-21, TeX §565-566)", e, "a legal font at a table-size limit cannot be converted: no round trip exists");
+                return;
+            }
+            check_tfm(i, &b, &|| json!({"kind": "tfm-table-limits", "table": name, "sizes": [nw, nh, nd, ni, ne, np]}), acc);
+            if acc.nontrivial > before {
+                if ne == 256 {
+                    acc.count("font_with_exactly_256_extensible_recipes");
+                }
+                if (nw, nh, nd, ni) == (256, 16, 16, 64) || nw == 256 || nh == 16 || nd == 16 || ni == 64 || ne == 256 || np == 254 {
+                    acc.count("font_with_table_at_its_maximum_size");
+                }
+                for (hit, c) in [(nw == 256, "table_at_maximum_nw"), (nh == 16, "table_at_maximum_nh"), (nd == 16, "table_at_maximum_nd"), (ni == 64, "table_at_maximum_ni"), (ne == 256, "table_at_maximum_ne"), (np == 254, "table_at_maximum_np")] {
+                    if hit {
+                        acc.count(c);
+                    }
+                }
+            }
+        });
+    }
+    // (x) pairs of extensible recipes over the four slots
+    {
+        let mut recipes: Vec<[u8; 4]> = vec![];
+        for t in [0u8, b'a', b'r'] {
+            for m in [0u8, b'a', b'r'] {
+                for b in [0u8, b'a', b'r'] {
+                    for r in [b'a', b'r'] {
+                        recipes.push([t, m, b, r]);
+                    }
+                }
+            }
+        }
+        let nr = recipes.len() as u64;
+        let rc = &recipes;
+        ctx.family("tfm-recipe-pairs", "hand-written fonts with characters a, r and two characters X, Y that have extensible recipes: every ordered pair of recipes over TOP/MID/BOT in {absent, a, r} and REP in {a, r} (identical recipes, recipes with the same pieces in different slots, recipes differing in one absent slot); each character's recipe is compared slot by slot between original and canonical file", nr * nr, |i, acc| {
+            let (r1, r2) = (rc[(i / nr) as usize], rc[(i % nr) as usize]);
+            let b = simple_tfm(&[(b'a', 0, 0), (b'r', 0, 0), (b'X', 3, 0), (b'Y', 3, 1)], &[], &[r1, r2], 0);
+            let pieces = |r: [u8; 4]| -> Vec<u8> { r.iter().enumerate().filter(|(k, x)| *k == 3 || **x != 0).map(|(_, x)| *x).collect() };
+            let before = acc.nontrivial;
+            check_tfm(i, &b, &|| json!({"kind": "tfm-recipe-pairs", "recipes": [r1, r2]}), acc);
+            if acc.nontrivial > before {
+                if r1 != r2 && pieces(r1) == pieces(r2) {
+                    acc.count("two_recipes_same_pieces_different_slots");
+                }
+                if r1 == r2 {
+                    acc.count("two_identical_recipes");
+                }
+            }
+        });
+    }
+    ctx.require("font_with_exactly_256_extensible_recipes", "a warning-free hand-written font with exactly 256 extensible recipes went through the whole round trip");
+    ctx.require("font_with_table_at_its_maximum_size", "a warning-free hand-written font with a table at its maximum size went through the whole round trip");
+    for c in ["table_at_maximum_nw", "table_at_maximum_nh", "table_at_maximum_nd", "table_at_maximum_ni", "table_at_maximum_ne", "table_at_maximum_np"] {
+        ctx.require(c, "this table at its maximum size in a warning-free hand-written font");
+    }
+    ctx.require("two_recipes_same_pieces_different_slots", "two characters whose extensible recipes have the same pieces in different slots");
+    ctx.require("two_identical_recipes", "two characters with identical extensible recipes");
     ctx.require("face_byte_at_coded_numbered_boundary", "hand-written TFM files with face byte 0, 17, 18, 19 or 255");
     ctx.require("pl_face_code_compared", "property lists whose FACE was compared with the face byte of the TFM");
     ctx.require("display_format_route_compared", "warning-free originals whose Ascii / Octal property lists were converted too");
